@@ -1,7 +1,7 @@
 //! C16: async readers and writers behave exactly like their synchronous counterparts.
 //!
 //! Modelled kinds (obs compared with the extracted Coq model NV.Async.Framing):
-//!   frame  <file> <nvalid> <mode> <seed> <chunks>   block transcript of the ASYNC bgzf reader under a
+//!   frame  <file> <nvalid> <mode> <seed> <chunks> <workers>  block transcript of the ASYNC bgzf reader under a
 //!                                                   poll script and of the SYNC reader, both against the model
 //! Implementation-only differential oracles (sync path vs async path on the same input, under a
 //! poll script): see `c16_fmt.rs` for the format-level kinds.
